@@ -195,4 +195,45 @@ example : (final (init 3 1) demo).red.pipes = [⟨1, .stderr, 3⟩] ∧
 -- `C17_no_spin`: its hypothesis is met by the last step of the run
 example : Out.eof .stdout 3 0 ∈ (step (final (init 3 1) (demo.dropLast)) (.ready 0)).2 := by decide
 
+/-- **a sibling's late clean-up leaves a successor alone** ("unaffected by sibling workers being restarted meanwhile"): when a
+    `kill_process` wakes from its nap only after the periodic check has reaped its worker, its `remove_redirections` runs on a
+    stopped `Process` whose pipes are closed file objects; it touches neither the registrations nor the handlers — in
+    particular not those a successor has meanwhile taken on the same descriptor numbers — and produces no observable effect. -/
+theorem C17_late_remove_touches_nothing (s : State) (pid : Nat) :
+    step s (.lateRemove pid) = (s, []) := rfl
+
+/-- every op but the late clean-up -/
+def notLate : Op → Bool
+  | .lateRemove _ => false
+  | _ => true
+
+/-- … so the deliveries of a run do not depend on where such late clean-ups fall: dropping them from the op list leaves every
+    output and the final state as they are. -/
+theorem C17_late_removes_are_invisible (s : State) (ops : List Op) :
+    final s (ops.filter notLate) = final s ops ∧ trace s (ops.filter notLate) = trace s ops := by
+  induction ops generalizing s with
+  | nil => exact ⟨rfl, rfl⟩
+  | cons o r ih =>
+    cases hk : notLate o with
+    | false =>
+      have ho : ∃ p, o = .lateRemove p := by
+        cases o <;> simp [notLate] at hk
+        exact ⟨_, rfl⟩
+      obtain ⟨p, rfl⟩ := ho
+      have h := ih s
+      simp only [List.filter_cons, hk]
+      exact ⟨by simpa [final, run, step] using h.1, by simpa [trace, run, step] using h.2⟩
+    | true =>
+      have h := ih (step s o).1
+      simp only [List.filter_cons, hk, if_true]
+      refine ⟨?_, ?_⟩
+      · simpa [final, run] using h.1
+      · simp only [trace, run, List.flatten_cons] at h ⊢
+        rw [h.2]
+
+-- worker 1 is reaped, worker 2 takes its numbers, then the late clean-up for worker 1 arrives: worker 2 still delivers
+example : deliveredOf 2 .stdout (trace (init 3 1)
+    [.start, .spawn true true, .reapSelfExited 1, .spawn true true, .lateRemove 1, .write 2 .stdout [5, 6], .ready 0]) = [5, 6] := by
+  decide
+
 end Circus.Redirector
